@@ -1,6 +1,6 @@
 (* C19 -- boolean checkers (the ok_ functions) and the rows evaluated by the harness:
    [model agrees with the observation; idempotent; alias_preserved; mode_enforced;
-    untouched_preserved; dict_roundtrip; slots_preserved; envelope_roundtrip] *)
+    untouched_preserved; dict_roundtrip; twin_same; slots_preserved; envelope_roundtrip] *)
 From Coq Require Import ZArith List String Bool.
 From RP Require Import Common.Eqb Descr.Types Descr.Model.
 Import ListNotations.
@@ -75,12 +75,46 @@ Definition ok_untouched (T : table) (c v : descr) : bool :=
      | None => false
      end.
 
+(* deprecated and current spelling normalise to the same description: the result of
+   verifying a description equals the result of verifying its twin (every set deprecated
+   attribute moved to its replacement, converted) -- same exception, or the same value for
+   every attribute except the deprecated names themselves, which are unset in both; this
+   includes derived attributes such as use_mpi *)
+Definition srcs_of (T : table) : list string := map a_src (t_aliases T).
+
+Definition same_outside (S : list string) (a b : descr) : bool :=
+  eqb_list String.eqb (map fst a) (map fst b)
+  && forallb (fun kv => mem_str (fst kv) S || val_eqb (getv (fst kv) b) (getv (fst kv) a)) a.
+
+Definition ok_twin (T : table) (r r' : perr + descr) : bool :=
+  match r, r' with
+  | inl e, inl e' => perr_eqb e e'
+  | inr v, inr v' =>
+      same_outside (srcs_of T) v v'
+      && forallb (fun s => negb (truthy (getv s v)) && negb (truthy (getv s v'))) (srcs_of T)
+  | _, _ => false
+  end.
+
+(* the twin built by the harness is a twin in the sense of the theorem (Proofs.twin_of) *)
+Definition twin_tie (T : table) (c t : descr) : bool :=
+  match typecheck (t_schema T) c with
+  | inl _ => true
+  | inr d1 =>
+      match typecheck (t_schema T) t with
+      | inl _ => false
+      | inr t1 => same_outside (srcs_of T) (alias_pass T d1) t1
+                  && forallb (fun s => negb (truthy (getv s t1))) (srcs_of T)
+      end
+  end.
+
 Record td_obs := mkTdObs {
   o_c   : descr;                        (* TaskDescription(from_dict=x)._data *)
   o_rt  : descr;                        (* TaskDescription(from_dict=c.as_dict())._data *)
   o_v1  : perr + descr;                 (* after verify() *)
   o_v2  : option (perr + descr);        (* after a second verify() *)
-  o_rtv : option descr }.               (* TaskDescription(from_dict=v1.as_dict())._data *)
+  o_rtv : option descr;                 (* TaskDescription(from_dict=v1.as_dict())._data *)
+  o_twx : option descr;                 (* the twin given to the constructor (None: no deprecated name used) *)
+  o_tw  : option (perr + descr) }.      (* TaskDescription(from_dict=twin).verify() *)
 
 Definition pad_slots_env : list bool := [true; true].
 
@@ -92,6 +126,11 @@ Definition c19_td_row (T : table) (x : descr) (o : td_obs) : list bool :=
        | inr v => eqb_option res_eqb (Some (verify T v)) (o_v2 o)
                   && eqb_option descr_eqb (Some (construct T (as_dict v))) (o_rtv o)
        | inl _ => true
+       end
+    && match o_twx o, o_tw o with
+       | Some x', Some tw => res_eqb (verify T (construct T x')) tw && twin_tie T (o_c o) (construct T x')
+       | None, None => true
+       | _, _ => false
        end;
     match o_v1 o with
     | inr v => match o_v2 o with Some (inr v') => descr_eqb v v' | _ => false end
@@ -101,7 +140,13 @@ Definition c19_td_row (T : table) (x : descr) (o : td_obs) : list bool :=
     match o_v1 o with inr v => ok_mode T v | inl _ => true end;
     match o_v1 o with inr v => ok_untouched T (o_c o) v | inl _ => true end;
     descr_eqb (o_rt o) (o_c o)
-    && match o_v1 o, o_rtv o with inr v, Some r => descr_eqb r v | _, _ => true end ]
+    && match o_v1 o, o_rtv o with inr v, Some r => descr_eqb r v | _, _ => true end;
+    (* only for descriptions that pass the type pass: a bad value of a replacement that the
+       deprecated name overrides is not the twin's business *)
+    match o_tw o, typecheck (t_schema T) (o_c o) with
+    | Some tw, inr _ => ok_twin T (o_v1 o) tw
+    | _, _ => true
+    end ]
   ++ pad_slots_env.
 
 (* ---- pilot descriptions: same observation, no aliases ---- *)
@@ -129,7 +174,8 @@ Definition c19_pd_row (T : table) (x : descr) (o : td_obs) : list bool :=
     match o_v1 o with inr v => pd_rules v | inl _ => true end;
     match o_v1 o with inr v => ok_pd_untouched T (o_c o) v | inl _ => true end;
     descr_eqb (o_rt o) (o_c o)
-    && match o_v1 o, o_rtv o with inr v, Some r => descr_eqb r v | _, _ => true end ]
+    && match o_v1 o, o_rtv o with inr v, Some r => descr_eqb r v | _, _ => true end;
+    true ]
   ++ pad_slots_env.
 
 (* ---- slots ---- *)
@@ -165,7 +211,7 @@ Definition ok_placement (ss : list slot) (stages : list (perr + list slot)) : bo
                      end) stages.
 
 Definition c19_slots_row (os : list sop) (ss : list slot) (obs : list (perr + list slot)) : list bool :=
-  [ eqb_list stage_eqb (run_sops os ss) obs; true; true; true; true; true;
+  [ eqb_list stage_eqb (run_sops os ss) obs; true; true; true; true; true; true;
     ok_placement ss obs; true ].
 
 (* ---- envelopes ---- *)
@@ -194,5 +240,5 @@ Definition c19_env_row (callable : bool) (args : list atom) (kw : option kwargs)
     | inl e, inl e' => perr_eqb e e'
     | inr (_, a, k), inr (a', k', _) => eqb_list atom_eqb a a' && eqb_option kwargs_eqb k k'
     | _, _ => false
-    end; true; true; true; true; true; true;
+    end; true; true; true; true; true; true; true;
     ok_envelope callable args kw o ].
